@@ -1081,16 +1081,20 @@ class Connection(object):
                 log.exception("Pushed event handler errored, ignoring:")
 
     def send_msg(self, msg, request_id, cb, encoder=ProtocolHandler.encode_message, decoder=ProtocolHandler.decode_message, result_metadata=None):
-        if self.is_defunct:
-            raise ConnectionShutdown("Connection to %s is defunct" % self.endpoint)
-        elif self.is_closed:
-            raise ConnectionShutdown("Connection to %s is closed" % self.endpoint)
-        elif not self._socket_writable:
-            raise ConnectionBusy("Connection %s is overloaded" % self.endpoint)
+        # the shutdown checks and the registration of the handler are one step with respect to
+        # defunct()/close(), which mark the connection under the same lock before they fail the
+        # registered handlers: a request is either refused here or failed by error_all_requests()
+        with self.lock:
+            if self.is_defunct:
+                raise ConnectionShutdown("Connection to %s is defunct" % self.endpoint)
+            elif self.is_closed:
+                raise ConnectionShutdown("Connection to %s is closed" % self.endpoint)
+            elif not self._socket_writable:
+                raise ConnectionBusy("Connection %s is overloaded" % self.endpoint)
 
-        # queue the decoder function with the request
-        # this allows us to inject custom functions per request to encode, decode messages
-        self._requests[request_id] = (cb, decoder, result_metadata)
+            # queue the decoder function with the request
+            # this allows us to inject custom functions per request to encode, decode messages
+            self._requests[request_id] = (cb, decoder, result_metadata)
         msg = encoder(msg, request_id, self.protocol_version, compressor=self.compressor,
                       allow_beta_protocol_version=self.allow_beta_protocol_version)
 
